@@ -639,12 +639,32 @@ def shards(tier):
     return out
 
 
+# quick shards are split on these variables (enumerated per process) so that all cores are used and the wall time drops
+SPLIT = {'graph2': ['ignoreErrors', 's1_0'], 'symwr2': ['ignoreErrors', 'req_1'], 'searchers2': ['noDeps', 'sr1_0'],
+         'borrow2': ['noDeps', 'ignoreErrors'], 'sources2': ['s1_0'], 'nowrite2': ['writeMibs']}
+
+
+def _values(var):
+    base = var.split('_')[0]
+    if base in RANGES:
+        return list(range(RANGES[base][0], RANGES[base][1] + 1))
+    return [False, True]
+
+
 def conditions(prop, tier):
+    import itertools
     out = []
     for name, free, over, timeout, bounds in shards(tier):
-        fx = fixed_except(prop, free, **over)
-        out.append(dict(name='%s.compile.%s' % (prop, name), fn='check', fixed=fx, timeout=timeout,
-                        bounds=bounds + '; free=' + ','.join(free), reach_fn='reach', reach_timeout=60))
+        split = [v for v in SPLIT.get(name, []) if v in free]
+        rest = [v for v in free if v not in split]
+        for combo in itertools.product(*[_values(v) for v in split]):
+            ov = dict(over)
+            ov.update(dict(zip(split, combo)))
+            fx = fixed_except(prop, rest, **ov)
+            tag = ''.join('-%s%d' % (v.replace('_', ''), int(x)) for v, x in zip(split, combo))
+            out.append(dict(name='%s.compile.%s%s' % (prop, name, tag), fn='check', fixed=fx, timeout=timeout,
+                            bounds=bounds + '; free=' + ','.join(rest) + ('; fixed in this shard: ' + ', '.join('%s=%s' % z for z in zip(split, combo)) if split else ''),
+                            reach_fn='reach', reach_timeout=60))
     return out
 
 
